@@ -2,7 +2,7 @@ import PqModel.Layout
 
 /-! # C11 — the byte splice of the verbatim copy path
 
-MIRROR of `loadCopiedChunk` (writer_copy.go:449-525: byte ranges of the dictionary and data
+MIRROR of `loadCopiedChunk` (writer_copy.go:457-533: byte ranges of the dictionary and data
 pages, page locations made relative to the data region, counts and sizes carried over) and of the
 `c.copied != nil` branches of `writeRowGroup` (writer.go:1574-1598: dictionary page offset, data
 page offset, page locations re-absolutized, bytes streamed; writer.go:1640-1670: bloom filter
@@ -34,7 +34,7 @@ structure Copied where
   totalUncompressed : Nat
 deriving Repr, DecidableEq
 
-/-- writer_copy.go:449-525 `loadCopiedChunk`. `DictionaryPageOffset != 0` is `dictOffset = some _`
+/-- writer_copy.go:457-533 `loadCopiedChunk`. `DictionaryPageOffset != 0` is `dictOffset = some _`
     (no page of a Parquet file starts at offset 0: the magic is there). `none` = the
     "invalid source column chunk layout" error. -/
 def loadCopied (m : ChunkMeta) : Option Copied :=
